@@ -47,3 +47,17 @@ Print Assumptions C15_output_unit.
 Print Assumptions C15_power_is_sqmod.
 Print Assumptions C15_table_row_k.
 Print Assumptions C15_data_row_k.
+
+(* dB and phase (over the reals): the dB column 20 log10 |A| is 10 log10 T, and a phase theta with
+   |A| cos theta = Re A, |A| sin theta = Im A is what determines A together with T; each sampled
+   value of the implementation is tied to these by a generated interval lemma (stream db_phase) *)
+From Coq Require Import Reals.
+From Lekkersim Require Import Polar.
+Theorem C15_dB_amplitude (a b : R) : (0 < a * a + b * b)%R ->
+  (20 * (ln (sqrt (a * a + b * b)) / ln 10) = 10 * (ln (a * a + b * b) / ln 10))%R.
+Proof. exact (dB_amplitude a b). Qed.
+Theorem C15_phase_is_arg (a b theta : R) : is_angle a b theta ->
+  (sqrt (a * a + b * b) * cos theta = a /\ sqrt (a * a + b * b) * sin theta = b)%R.
+Proof. exact (polar_roundtrip a b theta). Qed.
+Print Assumptions C15_dB_amplitude.
+Print Assumptions C15_phase_is_arg.
